@@ -86,8 +86,9 @@ LEAF = [
     "{% tablerow r in xs cols: y %}{{ r }}{{ tablerowloop.col }}{{ tablerowloop.row }}{% endtablerow %}",
     "{% tablerow r in xs cols: 2 %}{{ r }}{% if r == 2 %}{% break %}{% endif %}{% endtablerow %}{% tablerow r in xs cols: 1 %}{% if r == 1 %}{% continue %}{% endif %}{{ r }}{% endtablerow %}",
     "{% raw %}{% endraw -%}  {{ x }}{% raw %}{{ y }}{% endraw %}{%- comment %}c{% endcomment -%} z",
+    "{% case x %}{% when 1, x, x %}several{% when x %}again{% else %}no{% endcase %}{% case s %}{% when 'abc', s %}S{% endcase %}",
 ]
-assert len(WRAP) == 16 and len(LEAF) == 38 and len(WRAP2) == 5   # the bounds in mk_condition's contract
+assert len(WRAP) == 16 and len(LEAF) == 39 and len(WRAP2) == 5   # the bounds in mk_condition's contract
 
 # data sets: nothing defined / ordinary / odd types
 DATA = [
@@ -159,7 +160,7 @@ def mk_condition(name, check, skip=None):
 
     def f(w1: int, leaf: int) -> bool:
         """
-        pre: 0 <= w1 <= 15 and 0 <= leaf <= 37
+        pre: 0 <= w1 <= 15 and 0 <= leaf <= 38
         post: _
         """
         if excluded(name, locals()):
@@ -181,7 +182,7 @@ def outcome(thunk):
         return ("other", type(e).__name__)
 
 
-BOUNDS = "corpus of %d templates = 5 outer constructs x 16 constructs x 38 leaves (harness/corpus.py), 4 fixed data sets" % SIZE
+BOUNDS = "corpus of %d templates = 5 outer constructs x 16 constructs x 39 leaves (harness/corpus.py), 4 fixed data sets" % SIZE
 
 __all__ = ["PARTIALS", "WRAP", "WRAP2", "LEAF", "DATA", "data", "source", "make_env", "template", "Mode",
            "NW2", "NW1", "NLEAF", "NDATA", "SIZE"]
